@@ -8,14 +8,15 @@ From HV Require Export lib.Harness model.Render spec.RenderS.
 Inductive case := CRender (h : hview) (rs : list (config * option dot)) (unchanged : bool).
 
 (* the drawing has the promised content of the model's: equal up to the order of the edge statements and of the sibling
-   statements inside a cluster, colours, the metadata text and the labels of non-value edges (the property promises
+   statements inside a cluster, colours, the metadata text, the labels of non-value edges and which of its two display names (with or
+   without extension prefix) a statement shows - the monitor demands one of the two - (the property promises
    one statement per node/link with name, cells, endpoints, value-edge type labels, and the nesting - none of these) *)
 Definition corr (c : case) : bool :=
   match c with
   | CRender h rs _ =>
       forallb (fun cd => match snd cd with
-                         | Some d => dot_peqb (promised (hv_links h) d)
-                                             (promised (hv_links h) (render (fst cd) (hv_tree h) (hv_links h)))
+                         | Some d => dot_peqb (erase true (promised (hv_links h) d))
+                                             (erase true (promised (hv_links h) (render (fst cd) (hv_tree h) (hv_links h))))
                          | None => false
                          end) rs
   end.
